@@ -12,6 +12,8 @@ mod c20;
 mod c22;
 mod c23;
 mod c24;
+mod c35;
+mod c36;
 mod gens;
 mod lang;
 mod vrlrun;
@@ -43,6 +45,8 @@ const EXECS: &[Exec] = &[
     sweep::exec,
     c23::exec,
     c24::exec,
+    c35::exec,
+    c36::exec,
 ];
 
 /// Run one case (`op` + inputs) on the implementation: the first module that recognises the op answers.
@@ -72,6 +76,8 @@ fn generate(prop: &str, sink: &mut sink::Sink, rng: &mut rng::Rng, n: u64) -> bo
         "C22" => c22::generate(sink, rng, n),
         "C23" => c23::generate(sink, rng, n),
         "C24" => c24::generate(sink, rng, n),
+        "C35" => c35::generate(sink, rng, n),
+        "C36" => c36::generate(sink, rng, n),
         _ => return false,
     }
     true
